@@ -160,6 +160,22 @@ pub fn retransmissions(rng: &mut Rng, plan: &mut Plan, rounds: u32, sockets: u32
 }
 
 /// Set the horizon so that everything sent can be processed, plus settle time.
+/// One run in four: the wall clock is stepped once or twice while the server runs (an NTP
+/// correction, an operator setting the date). Nothing a client gets other than the time itself,
+/// and nothing about the server's liveness, may depend on it. Call after the workload is laid out
+/// and before `settle`: the steps fall between the first and the last step of the plan.
+pub fn wall_steps(rng: &mut Rng, plan: &mut Plan) {
+    if !rng.chance(1, 4) {
+        return;
+    }
+    let last = plan.last_step_us().max(30_000);
+    for _ in 0..1 + rng.below(2) {
+        let t = 25_000 + rng.below(last - 25_000 + 1);
+        plan.step(t, Action::WallStepMs(*rng.pick(&[-3_600_000i64, -61_000, -1000, -1, 1, 999, 1000, 61_000, 86_400_000])));
+        plan.params.insert("wall_steps".into(), 1);
+    }
+}
+
 pub fn settle(plan: &mut Plan, settle_ms: u64) {
     let last = plan.last_step_us();
     plan.world.horizon_ms = last / 1000 + settle_ms;
